@@ -517,6 +517,24 @@ class FluidPropertyPolynominal(FluidProperty):
         self.prop_getter = np.poly1d(const)
         self.prop_int_getter = np.polyint(self.prop_getter)
 
+    json_excludes = JSONSerializableClass.json_excludes + ["prop_getter", "prop_int_getter"]
+
+    def to_dict(self):
+        # numpy poly1d objects are not JSON serializable: store the coefficients
+        d = super(FluidPropertyPolynominal, self).to_dict()
+        d["coefficients"] = np.asarray(self.prop_getter.coeffs, dtype=float)
+        return d
+
+    @classmethod
+    def from_dict(cls, d):
+        obj = JSONSerializableClass.__new__(cls)
+        d = dict(d)
+        coefficients = np.asarray(d.pop("coefficients"), dtype=float)
+        obj.__dict__.update(d)
+        obj.prop_getter = np.poly1d(coefficients)
+        obj.prop_int_getter = np.polyint(obj.prop_getter)
+        return obj
+
     def get_at_value(self, arg):
         """
 
